@@ -197,6 +197,7 @@ enum Mutn {
     SubresRemoved(usize),
     SubresAdded,
     SigChar(usize),
+    SigLength(usize),
     KeyOther,
     KeyUnknown,
     ProviderSecret,
@@ -224,6 +225,7 @@ impl Mutn {
             Mutn::SubresRemoved(_) => "sub-resource-removed",
             Mutn::SubresAdded => "sub-resource-added",
             Mutn::SigChar(_) => "signature-char",
+            Mutn::SigLength(_) => "signature-length",
             Mutn::KeyOther => "key-other-known",
             Mutn::KeyUnknown => "key-unknown",
             Mutn::ProviderSecret => "provider-secret",
@@ -275,6 +277,10 @@ fn mutations(r: &Req, b: &Base) -> Vec<Mutn> {
     }
     for i in 0..28 {
         m.push(Mutn::SigChar(i));
+    }
+    // the right signature cut to a prefix (incl. empty), or lengthened
+    for keep in [0usize, 1, 2, 14, 27, 29] {
+        m.push(Mutn::SigLength(keep));
     }
     m
 }
@@ -385,6 +391,13 @@ fn apply(mu: &Mutn, r: &mut Req, keys: &mut Vec<(String, String)>, b: &Base) -> 
                 (ak.to_owned(), String::from_utf8(s).unwrap())
             });
             let _ = &mut applied;
+        }
+        Mutn::SigLength(keep) => {
+            let keep = *keep;
+            set_sig_and_key(r, &|ak, sig| {
+                let t = if keep <= sig.len() { sig[..keep].to_owned() } else { format!("{sig}A") };
+                (ak.to_owned(), t)
+            });
         }
         Mutn::KeyOther => set_sig_and_key(r, &|_, sig| (AK2.to_owned(), sig.to_owned())),
         Mutn::KeyUnknown => set_sig_and_key(r, &|_, sig| ("AKIDUNKNOWN000000000".to_owned(), sig.to_owned())),
